@@ -284,7 +284,18 @@ def job_main(ctx: Ctx, natom, npts, order, with_nuclei=True):
             tot = tot + W[k][j]
         ctx.eq(f"point {j}: sum_A w_A == 1", tot, K(1), (), replay=Rsum, key=key + ":sum")
         if natom <= 3:
+            ren = None
+            if j >= 1 and j < npts:
+                try:
+                    ren = {node_of(metric.dist(P[j], A[i])): node_of(metric.dist(P[0], A[i])) for i in range(natom)}
+                except KeyError:
+                    ren = None
             for k in range(natom):
+                if ren is not None and dag.subst(node_of(W[k][j]), ren) is node_of(W[k][0]):
+                    # the weight at point j is the very same expression in that point's own distances as the weight at point 0 (decided above for
+                    # all distances satisfying the contract): the range follows by instantiation, without burdening the solver with both points
+                    ctx.ok(f"point {j}: 0 <= w_{k} <= 1 (same expression as point 0 up to renaming the point's distances)", how="syntactic")
+                    continue
                 ctx.holds(f"point {j}: 0 <= w_{k} <= 1", (W[k][j] >= 0) & (W[k][j] <= 1), (), replay=Rrng, key=key + ":range")
     for k in range(nuc):
         for a_ in range(natom):
